@@ -128,6 +128,7 @@ def schemas(draw, cfg=None):
     # ---- types
     types = []
     simple_defs, enums, selects, aggdefs = [], [], [], []
+    tdict_sel = {}
 
     def simple_like():
         """a typeref that is simple or a defined type over simple / enum"""
@@ -160,7 +161,16 @@ def schemas(draw, cfg=None):
 
     for _ in range(n_typ):
         name = nm.fresh()
-        c = draw(st.integers(0, 99))
+        tw = cfg.get("type_weights", {"simple": 25, "alias": 10, "enum": 20, "enum_alias": 10, "agg": 13, "select": 22})
+        tot = sum(tw.values())
+        c0 = draw(st.integers(0, tot - 1))
+        c = 0
+        acc = 0
+        for kname, base in (("simple", 0), ("alias", 25), ("enum", 35), ("enum_alias", 55), ("agg", 65), ("select", 78)):
+            acc += tw[kname]
+            if c0 < acc:
+                c = base
+                break
         if c < 25:
             t = {"name": name, "kind": "defined", "of": T(draw(st.sampled_from(SIMPLE)))}
             simple_defs.append(name)
@@ -206,9 +216,25 @@ def schemas(draw, cfg=None):
             else:
                 k = draw(st.integers(1, min(5, len(cands))))
                 members = draw(st.lists(st.sampled_from(cands), min_size=k, max_size=k, unique=True))
+                # shapes that stress member look-up: a defined type listed BEFORE the type it renames; an earlier
+                # select as a member (nested select)
+                alias_pairs = [(t2["name"], t2["of"]["name"]) for t2 in types
+                               if t2["kind"] == "defined" and t2["of"]["k"] == "named" and not t2.get("alias_of_enum")
+                               and t2["of"]["name"] in simple_defs]
+                if alias_pairs and draw(st.integers(0, 99)) < cfg.get("p_select_alias_pair", 20):
+                    al, base = draw(st.sampled_from(alias_pairs))
+                    members = [m for m in members if m not in (al, base)]
+                    pos = draw(st.integers(0, len(members)))
+                    members[pos:pos] = [al, base]
+                if selects and draw(st.integers(0, 99)) < cfg.get("p_nested_select", 25):
+                    # prefer an inner select that itself has an interesting member list (renamed type before its base)
+                    rich = [sname_ for sname_ in selects if any(
+                        al in tdict_sel[sname_] and base in tdict_sel[sname_] for al, base in alias_pairs)]
+                    inner = draw(st.sampled_from(rich if rich and draw(st.booleans()) else selects))
+                    if inner not in members:
+                        members.insert(draw(st.integers(0, len(members))), inner)
                 t = {"name": name, "kind": "select", "members": members}
-                if cfg.get("select_alias", True) and draw(st.integers(0, 9)) < 1:
-                    pass
+                tdict_sel[name] = members
                 selects.append(name)
         types.append(t)
 
